@@ -13,6 +13,22 @@ from .opcodes import RegexOpCode as Op
 from .. import _verif
 
 
+# ECMAScript LineTerminator, WhiteSpace and (non-unicode-mode) word characters
+_LINE_TERMINATORS = "\n\r\u2028\u2029"
+_WHITESPACE = frozenset(
+    "\t\n\v\f\r \u00a0\u1680\u2000\u2001\u2002\u2003\u2004\u2005\u2006\u2007"
+    "\u2008\u2009\u200a\u2028\u2029\u202f\u205f\u3000\ufeff"
+)
+
+
+def _is_digit(ch: str) -> bool:
+    return "0" <= ch <= "9"
+
+
+def _is_word_char(ch: str) -> bool:
+    return ch == "_" or "a" <= ch <= "z" or "A" <= ch <= "Z" or "0" <= ch <= "9"
+
+
 class RegexTimeoutError(Exception):
     """Raised when regex execution times out."""
 
@@ -245,7 +261,7 @@ class RegexVM:
                     pc, sp, captures, registers = self._backtrack(stack)
 
             elif opcode == Op.DOT:
-                if sp >= len(string) or string[sp] == "\n":
+                if sp >= len(string) or string[sp] in _LINE_TERMINATORS:
                     if not stack:
                         return None
                     pc, sp, captures, registers = self._backtrack(stack)
@@ -263,7 +279,7 @@ class RegexVM:
                 pc += 1
 
             elif opcode == Op.DIGIT:
-                if sp >= len(string) or not string[sp].isdigit():
+                if sp >= len(string) or not _is_digit(string[sp]):
                     if not stack:
                         return None
                     pc, sp, captures, registers = self._backtrack(stack)
@@ -272,7 +288,7 @@ class RegexVM:
                 pc += 1
 
             elif opcode == Op.NOT_DIGIT:
-                if sp >= len(string) or string[sp].isdigit():
+                if sp >= len(string) or _is_digit(string[sp]):
                     if not stack:
                         return None
                     pc, sp, captures, registers = self._backtrack(stack)
@@ -281,7 +297,7 @@ class RegexVM:
                 pc += 1
 
             elif opcode == Op.WORD:
-                if sp >= len(string) or not (string[sp].isalnum() or string[sp] == "_"):
+                if sp >= len(string) or not _is_word_char(string[sp]):
                     if not stack:
                         return None
                     pc, sp, captures, registers = self._backtrack(stack)
@@ -290,7 +306,7 @@ class RegexVM:
                 pc += 1
 
             elif opcode == Op.NOT_WORD:
-                if sp >= len(string) or (string[sp].isalnum() or string[sp] == "_"):
+                if sp >= len(string) or _is_word_char(string[sp]):
                     if not stack:
                         return None
                     pc, sp, captures, registers = self._backtrack(stack)
@@ -299,7 +315,7 @@ class RegexVM:
                 pc += 1
 
             elif opcode == Op.SPACE:
-                if sp >= len(string) or not string[sp].isspace():
+                if sp >= len(string) or string[sp] not in _WHITESPACE:
                     if not stack:
                         return None
                     pc, sp, captures, registers = self._backtrack(stack)
@@ -308,7 +324,7 @@ class RegexVM:
                 pc += 1
 
             elif opcode == Op.NOT_SPACE:
-                if sp >= len(string) or string[sp].isspace():
+                if sp >= len(string) or string[sp] in _WHITESPACE:
                     if not stack:
                         return None
                     pc, sp, captures, registers = self._backtrack(stack)
@@ -385,7 +401,7 @@ class RegexVM:
                 pc += 1
 
             elif opcode == Op.LINE_START_M:
-                if sp != 0 and (sp >= len(string) or string[sp - 1] != "\n"):
+                if sp != 0 and string[sp - 1] not in _LINE_TERMINATORS:
                     if not stack:
                         return None
                     pc, sp, captures, registers = self._backtrack(stack)
@@ -401,7 +417,7 @@ class RegexVM:
                 pc += 1
 
             elif opcode == Op.LINE_END_M:
-                if sp != len(string) and string[sp] != "\n":
+                if sp != len(string) and string[sp] not in _LINE_TERMINATORS:
                     if not stack:
                         return None
                     pc, sp, captures, registers = self._backtrack(stack)
@@ -628,11 +644,8 @@ class RegexVM:
     def _is_word_boundary(self, string: str, pos: int) -> bool:
         """Check if position is at a word boundary."""
 
-        def is_word_char(ch: str) -> bool:
-            return ch.isalnum() or ch == "_"
-
-        before = pos > 0 and is_word_char(string[pos - 1])
-        after = pos < len(string) and is_word_char(string[pos])
+        before = pos > 0 and _is_word_char(string[pos - 1])
+        after = pos < len(string) and _is_word_char(string[pos])
         return before != after
 
     def _run_lookbehind(
